@@ -42,7 +42,7 @@ Mk(p, L, est, res, ms, mn, fx, bal, ps, nw, de) ==
          fstart |-> IF fx = t /\ ms # t THEN ps - 2 * Day ELSE Missing, fend |-> Missing]],
      roots |-> SeqOf({c \in T : p[c] = 0}),
      resources |-> <<[expr |-> Wk8, never |-> FALSE], [expr |-> IF DEAD THEN Zero7 ELSE Mwf4, never |-> DEAD]>>,
-     ext |-> <<>>]
+     ext |-> <<>>, tod |-> FALSE]
 
 Init == \E p \in Shapes : \E L \in LinkSets(p) : \E est \in [T -> Ests] : \E res \in ResMaps :
         \E ms \in 0..N : \E mn \in 0..1 : \E fx \in {0, N} : \E bal \in BOOLEAN : \E ps \in PStarts :
